@@ -795,6 +795,9 @@ void SoPlexBase<R>::_storeSolutionRealFromPresol()
    _hasSolReal = true;
    _solReal._isPrimalFeasible = true;
    _solReal._isDualFeasible = true;
+
+   // the solver holds the original LP with the slack basis: load the unsimplified basis, which is the one the queries report
+   _solver.setBasis(_basisStatusRows.get_const_ptr(), _basisStatusCols.get_const_ptr());
    _solver.setBasisStatus(SPxBasisBase<R>::OPTIMAL);
 
    // check solution for violations and solve again if necessary
